@@ -284,9 +284,10 @@ def run(ctx):
     try:
         canaries(ctx, exact, acc_e, gen, acc_g)
         hist_canaries(ctx, hist, acc_h)
-    except core.MachineryFailure:
+    except Exception as e:      # noqa: BLE001 - verdicts first: a canary that cannot be built on a violating tree is not the verdict
         if not ctx.violations:
             raise
+        ctx.cov["machinery_problem_after_violations"] = f"{type(e).__name__}: {e}"[:300]
     ctx.cov["rule"] = ("exact: every acute lattice sub-complex inside the bounds (exhaustive), each run through Mesh.from_triangulation; "
                        "generated: one case per device description (film x holes x terminals x mesh settings x xi), "
                        "every site, edge and triangle of each mesh checked by TLC; distinct = distinct inputs")
@@ -411,9 +412,15 @@ def canaries(ctx, exact, acc_e, gen, acc_g):
         elif mut == "flip":
             t["T"][0] = [t["T"][0][0], t["T"][0][2], t["T"][0][1]]
         elif mut == "cell":
+            if not any(s_["wc"] for s_ in t["SITE"]):      # pick an accepted mesh that has a well-centred site
+                n = next(m for m in cand if any(s_["wc"] for s_ in gen[m]["SITE"]))
+                t = copy.deepcopy(mg.strip_trace(gen[n]))
             i = [k for k, s in enumerate(t["SITE"]) if s["wc"]][0]
             t["SITE"][i]["a"] += 50
         elif mut == "dual":
+            if not any(s_["wc"] for s_ in t["EDGE"]):
+                n = next(m for m in cand if any(s_["wc"] for s_ in gen[m]["EDGE"]))
+                t = copy.deepcopy(mg.strip_trace(gen[n]))
             i = [k for k, s in enumerate(t["EDGE"]) if s["wc"]][0]
             t["EDGE"][i]["r"] += 50
         elif mut == "term":
